@@ -137,7 +137,7 @@ def oracle(scn, il):
         got_done = re.search(scn.meta['done'], res + ' ') is not None
         want_done = k not in OOM_TABLE[inst]
         if got_done != want_done:
-            return [('oom-model:inst%d' % inst, '%s: with allocation #%d failing the library %s, the model (coq/Oom.v, theorem C18_* of this call) says it %s: %s' % (
+            return [('tie:oom-model:inst%d' % inst, '%s: with allocation #%d failing the library %s, the model (coq/Oom.v, theorem C18_* of this call) says it %s: %s' % (
                 scn.id, k, 'completes' if got_done else 'reports failure', 'completes' if want_done else 'reports failure', res[:120]))]
     return []
 
